@@ -441,7 +441,10 @@ func (g *histGen) scenario() {
 		g.freshInput(r.Intn(6))
 	}
 	i := r.Intn(g.nin)
-	switch r.Intn(12) {
+	switch r.Intn(13) {
+	case 12:
+		g.scenarioSignedLocktime(i)
+		return
 	case 10:
 		g.scenarioSigOrder(i)
 		return
@@ -621,6 +624,41 @@ func (g *histGen) scenarioFinalizedIssuance() {
 	if r.Chance(40) {
 		// the same call without issuance arguments is fine
 		g.emit(fmt.Sprintf("blind 1 1 %d 0 1 %d 0 1 1 1 1 0 %d", j, out, g.cnt%250))
+	}
+}
+
+// scenarioSignedLocktime: an input is signed first, then inputs are added with a height lock, a time lock, both
+// and none: under partial signatures only additions that leave Locktime() where it is may be accepted.
+func (g *histGen) scenarioSignedLocktime(i int) {
+	r := g.r
+	k := r.Intn(3)
+	g.emit(fmt.Sprintf("wutxo %d wpkh%d 0", i, k))
+	g.emit(fmt.Sprintf("sign %d 0 1 k%d n n", i, k))
+	for n := 1 + r.Intn(3); n > 0; n-- {
+		var height, tm int
+		switch r.Intn(5) {
+		case 0:
+			height = r.Pick(120, 77, 100, 300)
+		case 1:
+			tm = r.Pick(500000005, 600000000, 500000100)
+		case 2:
+			height, tm = r.Pick(120, 100), r.Pick(500000005, 600000000)
+		case 3:
+			height = r.Pick(0, 0, 77)
+		}
+		for t := 0; t < nPrevTx; t++ {
+			idx := r.Intn(6)
+			if !g.used[fmt.Sprint(t, ":", idx)] {
+				g.used[fmt.Sprint(t, ":", idx)] = true
+				g.ins = append(g.ins, [2]int{t, idx})
+				g.emit(fmt.Sprintf("addins 1 0 %d %d 0 %d %d", t, idx, height, tm))
+				g.nin++
+				break
+			}
+		}
+	}
+	if r.Chance(40) {
+		g.finish(i)
 	}
 }
 
